@@ -62,6 +62,9 @@ def worker(task):
     if scale > 1:
         from . import verify as _v
         _v.FUNC_BUDGET_S = _v.FUNC_BUDGET_S * scale
+        # second chance: feasibility queries (class pruning at dispatch sites) get the longer budget too, so that a
+        # solver that was merely slow under load does not leave an infeasible class "possible"
+        _engine().feas_timeout_ms = 400 * scale
     import z3
     from .verify import verify_contract, solve
     from .concretise import concretise
@@ -73,7 +76,12 @@ def worker(task):
             c = cand
     self_cls = eng.ct.find_class(self_cls_name) if self_cls_name else None
     try:
-        rep = verify_contract(eng, c, prop, self_cls=self_cls)
+        if ckey.startswith("lemma:"):
+            from .verify import verify_lemma
+            c = eng.cs.lemma_classes[cname]
+            rep = verify_lemma(eng, c, prop)
+        else:
+            rep = verify_contract(eng, c, prop, self_cls=self_cls)
     except Exception:
         return {"key": ckey, "contract": cname, "status": "error", "reason": traceback.format_exc(), "obligations": []}
     timeout = (6000 if tier == "quick" else 30000) * scale
@@ -145,6 +153,9 @@ def tasks_for(eng, prop):
                 tasks.append((key, c.name, None))
                 for k in classes:
                     tasks.append((key, c.name, k))
+    for name, c in eng.cs.lemma_classes.items():
+        if prop in c.props:
+            tasks.append(("lemma:" + name, name, None))
     return tasks
 
 
@@ -175,7 +186,8 @@ def check_property(prop, tier, seed, jobs=16):
     # that ended in solver timeouts only (no counter-model), is re-run with a 5x budget, two at a time.  Timeouts on
     # a busy machine must not become verdicts.
     def _inconclusive(r):
-        if r.get("status") == "unsupported" and "budget" in str(r.get("reason")):
+        if r.get("status") == "unsupported":
+            # includes "<construct> in merge mode" reports that only arise when a feasibility query timed out under load
             return True
         for o in r.get("obligations", []):
             if o["result"] == "failed" and o["role"] in ("plain", "outside") and "sat" not in str(o.get("reason")).replace("unsat", ""):
